@@ -204,8 +204,13 @@ func (dl *datalog) sealSegment(seg *segment) error {
 	if seg.meta.Full {
 		return nil
 	}
+	// The segment counts as sealed only once it has been flushed: a failed flush is retried by the
+	// next call instead of being skipped for ever.
+	if err := seg.Sync(); err != nil {
+		return err
+	}
 	seg.meta.Full = true
-	return seg.Sync()
+	return nil
 }
 
 func (dl *datalog) writeRecord(data []byte, rt recordType) (uint16, uint32, error) {
